@@ -173,11 +173,19 @@ func (in *HInst) do(call *tla.Value) (o HObs) {
 		o.Err = hackpadfs.Remove(in.fs, "f")
 	case "rename":
 		o.Err = hackpadfs.Rename(in.fs, "f", "g")
+	case "replace":
+		// another file takes the name
+		if o.Err = hackpadfs.WriteFullFile(in.fs, "r", otherData, 0644); o.Err == nil {
+			o.Err = hackpadfs.Rename(in.fs, "r", "f")
+		}
 	default:
 		panic("unknown handle op " + op)
 	}
 	return o
 }
+
+// otherData is the content of the file that op "replace" renames onto the handles' name
+var otherData = []byte{200, 201}
 
 func (in *HInst) sig(call, tr *tla.Value, what string) string {
 	op, b := "-", "-"
@@ -277,10 +285,17 @@ func (in *HInst) CheckState(exp *tla.Value, call, tr *tla.Value) []engine.Div {
 	}()
 	link := exp.F("link").S
 	want := exp.F("data").Bytes()
-	isNs := call != nil && (call.F("op").S == "remove" || call.F("op").S == "rename")
+	isNs := call != nil && (call.F("op").S == "remove" || call.F("op").S == "rename" || call.F("op").S == "replace")
 	for _, name := range []string{"f", "g"} {
 		b, err := hackpadfs.ReadFile(in.fs, name)
 		switch {
+		case link == "other" && name == "f":
+			// the name belongs to the file that replaced the handles' file: nothing done through them may show here
+			if err != nil {
+				add(in.cfg.PropClosed, "state replacing-file-missing", fmt.Sprintf("%s: %v", name, err))
+			} else if !bytes.Equal(b, otherData) {
+				add(in.cfg.PropClosed, "state replacing-file-overwritten", fmt.Sprintf("%s holds %v want %v", name, b, otherData))
+			}
 		case link == name && err != nil:
 			add(in.cfg.PropIO, "state name-missing", fmt.Sprintf("%s: %v", name, err))
 		case link == name && !bytes.Equal(b, want):
